@@ -68,6 +68,14 @@ class Tr:
                     return "(o.isa typespec)"
                 ts = t.elts if isinstance(t, ast.Tuple) else [t]
                 return "(" + " || ".join(f"o.isa {lstr(dotted(x))}" for x in ts) + ")"
+            if isinstance(f, ast.Name) and f.id == "issubclass" and len(e.args) == 2:
+                if not (isinstance(e.args[0], ast.Name) and e.args[0].id in ("obj", "o")):
+                    raise Untranslatable(f"issubclass on {ast.unparse(e.args[0])}")
+                t = e.args[1]
+                if isinstance(t, ast.Name) and t.id == "typespec":
+                    return "(o.subOf typespec)"
+                ts = t.elts if isinstance(t, ast.Tuple) else [t]
+                return "(" + " || ".join(f"o.subOf {lstr(dotted(x))}" for x in ts) + ")"
             if isinstance(f, ast.Name) and f.id == "hasattr" and len(e.args) == 2 \
                     and isinstance(e.args[0], ast.Name) and e.args[0].id == "types" \
                     and isinstance(e.args[1], ast.Constant):
@@ -237,9 +245,12 @@ def gen():
     muts = measure_mutators()
     classes = measure_classes(spec)
     L = [HEADER, "namespace JinjaV.Gen.Sandbox\n",
-         "/-- abstract object: classes it is an instance of (dotted names as written in sandbox.py) and truthy marker attributes -/",
-         "structure Obj where\n  classes : List String\n  flags : List String\n  deriving Repr, DecidableEq\n",
+         "/-- abstract object: classes it is an instance of (dotted names as written in sandbox.py), truthy marker attributes, and — for a class object — what it is a subclass of -/",
+         "structure Obj where\n  classes : List String\n  flags : List String\n"
+         "  /-- when the object is itself a class: the classes (as named in sandbox.py) it is a subclass of -/\n"
+         "  subclassOf : List String := []\n  deriving Repr, DecidableEq\n",
          "def Obj.isa (o : Obj) (c : String) : Bool := o.classes.contains c",
+         "def Obj.subOf (o : Obj) (c : String) : Bool := o.subclassOf.contains c",
          "def Obj.flag (o : Obj) (f : String) : Bool := o.flags.contains f\n",
          "-- READ: module constants"]
     for k, v in consts.items():
@@ -266,6 +277,11 @@ def gen():
     L.append("def builtinClasses : List (String × List String) := [\n" + ",\n".join(
         f"  ({lstr(t)}, {llist(map(lstr, c))})" for t, c in classes.items()) + "\n]\n")
     L.append("def objOf (t : String) : Obj :=\n  { classes := (builtinClasses.lookup t).getD [], flags := [] }\n")
+    L.append("/-- the class object itself (`dict`, `list`, …): an instance of `type`, a subclass of what its instances are instances of -/")
+    L.append("def classObjOf (t : String) : Obj :=\n  { classes := [\"type\"], flags := [], subclassOf := (builtinClasses.lookup t).getD [] }\n")
+    L.append("/-- counterexample finder for `mutators_blocked_on_class` -/")
+    L.append("def unblockedClassMutators : List (String × String) :=\n"
+             "  builtinMutators.filter (fun p => Immutable_is_safe_attribute (classObjOf p.1) p.2)\n")
     L.append("/-- counterexample finder for `mutators_blocked` -/")
     L.append("def unblockedMutators : List (String × String) :=\n"
              "  builtinMutators.filter (fun p => Immutable_is_safe_attribute (objOf p.1) p.2)\n")
